@@ -106,7 +106,8 @@ def run_cluster(case):
     dmax, dmode = case["dmax"], case.get("dmode", "uniform")
     out, sched = [], []
     crashed = [False] * n
-    st = {"shuf": None, "next_id": 0, "events": 0, "lost": {}}
+    st = {"shuf": None, "next_id": 0, "events": 0, "lost": {}, "nshuf": {}, "node": None}
+    smode, fav = case.get("shuf", "random"), set(case.get("shufv", []))
     limit = 400 * n * max(1, case["rounds"]) + 1000
 
     def idx(name):
@@ -118,7 +119,20 @@ def run_cluster(case):
 
         @staticmethod
         def shuffle(lst):
+            # every result is a permutation drawn from the case seed; the *policy* of the case then
+            # arranges it (any permutation is a legal outcome of random.shuffle): favoured members
+            # last / first / alternating per node, ascending, descending
             rng.shuffle(lst)
+            if smode == "asc":
+                lst.sort(key=idx)
+            elif smode == "desc":
+                lst.sort(key=idx, reverse=True)
+            elif smode in ("last", "first", "flip"):
+                who = st.get("node")
+                cnt = st["nshuf"].get(who, 0)
+                st["nshuf"][who] = cnt + 1
+                to_end = smode == "last" or (smode == "flip" and cnt % 2 == 1)
+                lst.sort(key=(lambda x: idx(x) in fav) if to_end else (lambda x: idx(x) not in fav))
             st["shuf"] = [idx(x) for x in lst]
 
         def __getattr__(self, name):
@@ -180,6 +194,7 @@ def run_cluster(case):
                     out.append(f"to {a} crashed")
                 return None
             st["shuf"] = None
+            st["node"] = a
             res = super().handle_event(ev)
             sh = st["shuf"]
             sched.append(echo + ("" if not sh else " " + " ".join(map(str, sh))))
@@ -250,6 +265,7 @@ def run_cluster(case):
             if ev.event_type == "HvStart":
                 a = meta["node"]
                 st["shuf"] = None
+                st["node"] = a
                 evs = nodes[a].start()
                 sched.append(f"init {a} {self.now.nanoseconds} " + " ".join(map(str, st["shuf"] or [])))
                 return evs
@@ -630,11 +646,15 @@ class C13(core.Property):
             "optional start offsets, forged late gossip; one sixth are detection scenarios in which an observer has "
             "nobody to relay an indirect probe through (a pair, indirect_probe_count = 0, all other peers crashed — "
             "mostly before anybody heard from them — with short suspicion timeouts so that they are DEAD when the next "
-            "victim is probed), small delays and a horizon beyond every detection deadline; "
+            "victim is probed) or in which only direct probing can find victims that were never heard from while the "
+            "shuffle oracle puts them last in every pass (or alternately first and last, or sorts the order), "
+            "small delays and a horizon beyond every detection deadline; "
             "one third of the clusters run over a network that is partitioned with the real "
             "Network.partition()/Partition.heal(): a victim cut off from some peers for good, from all peers and "
             "re-connected, a minority split, overlapping handles, a flapping cut — mostly with no crash at all; "
-            "non-trivial = at least one message delivered; family phi: stand-alone detector, heartbeats on a 1/512 s "
+            "non-trivial = at least one message delivered; family phi: stand-alone detector (half of the histories at "
+            "the edges of its input space: last heartbeat at timestamp 0, single / repeated / out-of-order heartbeats, "
+            "no or tiny bootstrap interval, window of one, sampled to beyond the detection silence), heartbeats on a 1/512 s "
             "grid, samples at ns resolution around the threshold crossing and along a long silence placed by "
             "standardised distance (−3 … 10^5 standard deviations), dense through the range where the tail "
             "probability is a subnormal double and across its underflow to 0 (phi = +inf); every silence is then "
@@ -667,6 +687,12 @@ class C13(core.Property):
         "'a bound well below the probe interval' is read as 2*delta < probe_interval/2 + suspicion_timeout "
         "(implied by delta < probe_interval/2 <= suspicion_timeout); delta is the largest one-way delay observed",
         "detection bound: crash + delta + ((crashes+1)*(n-1)+2) probe intervals + interval/2",
+        "detector-level detection (clause 5): once a heartbeat has been recorded — timestamp 0 is a timestamp — and the interval "
+        "window is not empty (bootstrap interval > 0 or a positive gap between consecutive heartbeats, max_sample_size >= 1), a "
+        "sample taken m + 39*max(m, min_std) after the last heartbeat (m = largest interval ever recorded, min_std = 0.1 s) "
+        "must have reached the threshold (thresholds up to 300)",
+        "any permutation is a legal result of random.shuffle: the case may fix a policy for the oracle (favoured members last / "
+        "first / alternating per node, ascending, descending) instead of drawing uniformly from the case seed",
         "adaptive phi sampling is confined to the part of a silence in which the tail probability is a normal double "
         "(phi <= 307.65, plus 2^20 ns): beyond, glibc's erfc is accurate to ~1e-7 only and phi of the unmodified code "
         "wobbles at nanosecond scale (fixes/C13-phi-subnormal-tail-wobble.known.md); there only the case's own samples "
@@ -680,6 +706,9 @@ class C13(core.Property):
         "BlockedRun a b: is_partitioned(a, b) before every action of the run (partition_isolates)",
         "2*delta < half + susp (no_false_death)",
         "tail antitone, nlog antitone on positives and non-negative on the range of tail, 0 < sd (phi_monotone)",
+        "phi_reaches_level / phi_silence_detected: PhiHyp as for phi_monotone; a heartbeat has been recorded (at any time, "
+        "0 included) and the window is not empty; mean <= m and sd <= max(m, min_std) with m a bound on every recorded interval; "
+        "threshold not above the level at standardised distance 39 (judge: threshold <= 300)",
         "QuietRun a x: nothing from x and no 'alive' update about x is delivered to a (failure_detected_*_partial)",
         "c.fix = true, i.e. the repaired _handle_indirect_ping (failure_detected_partial, no_delegate_detected, "
         "unacked_probe_dead_after_suspicion, lone_observer_detects)",
@@ -709,6 +738,8 @@ class C13(core.Property):
         # quick tier: ~250 cases take ~20 s in-process; on a loaded machine the fork pool is slower
         # than that and its stalls show up as IMPL-TIMEOUT.  Thorough keeps the pool.
         self.pool_workers = 1 if tier == "quick" else None
+        if i % 12 == 11:
+            return self.gen_phi_boundary(rng, tier)
         if i % 6 == 5:
             return self.gen_phi(rng, tier)
         if i % 6 in (1, 3):
@@ -727,10 +758,19 @@ class C13(core.Property):
         by the time a later victim is probed — and a count of 1–2 with as many crashes.  Delays are
         small (the bound `2*delta < half + susp` holds) and the run is long enough for the deadline
         `detectDeadline` of every crash to pass, so clause 2 is really judged."""
-        shape = rng.choice(["pair", "pair", "nodelegates", "nodelegates", "masscrash", "masscrash", "fewdelegates"])
+        shape = rng.choice(["pair", "pair", "nodelegates", "nodelegates", "masscrash", "masscrash", "fewdelegates",
+                            "roundrobin", "roundrobin", "roundrobin"])
         ivu = rng.choice([32, 64, 128, 256, 512])
         half = ivu // 2
-        if shape == "pair":
+        if shape == "roundrobin":
+            # only direct probing can find the victims (they fall silent before anybody has heard from
+            # them), every observer has at least two peers, and the shuffle policy is adversarial for
+            # the round-robin order: the victims land in the last slot of every pass (or alternately
+            # first and last: the longest gap between two probes a correct round robin allows)
+            n = rng.choice([3, 3, 3, 4, 4, 5, 6])
+            k = rng.choice([1, 1, 1, 2])
+            indirect = rng.choice([0, 1, 3, 3, n])
+        elif shape == "pair":
             n, k = 2, 1
             indirect = rng.choice([0, 1, 3, 3, 5])
         elif shape == "nodelegates":
@@ -762,7 +802,7 @@ class C13(core.Property):
         victims = rng.sample(range(n), k)
         crashes = []
         for x in victims:
-            mode = rng.random()
+            mode = rng.random() * (0.6 if shape == "roundrobin" else 1.0)
             if mode < 0.6:     # before its own first tick and before any peer probes it: never heard from
                 t = rng.choice([0, 0, 1, half, ivu - 1, min(offs) + ivu - 1])
             elif mode < 0.8:   # around the first round of probes
@@ -773,9 +813,26 @@ class C13(core.Property):
         last = max(t for _, t in crashes)
         ticks = (k + 1) * (n - 1) + 2
         rounds = ticks + (last + dmax + max(offs)) // ivu + rng.choice([2, 3, 6])
-        return {"family": "cluster", "n": n, "iv": ivu, "susp": susp, "thr": rng.choice([1.0, 8.0, 8.0, 8.0, 16.0]),
+        case = {"family": "cluster", "n": n, "iv": ivu, "susp": susp, "thr": rng.choice([1.0, 8.0, 8.0, 8.0, 16.0]),
                 "indirect": indirect, "rounds": rounds, "seed": rng.getrandbits(32), "dmax": dmax,
                 "dmode": rng.choice(["uniform", "const", "bimodal"]), "crashes": crashes, "offs": offs}
+        if shape == "roundrobin":
+            case["shuf"], case["shufv"] = rng.choice(["last", "last", "last", "flip", "first"]), sorted(victims)
+        else:
+            self.shuffle_policy(rng, case, victims, 0.5)
+        return case
+
+    SHUF_MODES = ["last", "last", "first", "flip", "asc", "desc"]
+
+    def shuffle_policy(self, rng, case, victims, prob):
+        """with probability `prob` the case fixes how the oracle arranges every `random.shuffle` result
+        (the favoured members — the victims, or a random subset — last / first / alternating, or the
+        whole list sorted); otherwise shuffles are uniform from the case seed"""
+        if rng.random() >= prob:
+            return
+        fav = sorted(victims) if victims and rng.random() < 0.7 else \
+            sorted(rng.sample(range(case["n"]), rng.randint(1, max(1, case["n"] - 1))))
+        case["shuf"], case["shufv"] = rng.choice(self.SHUF_MODES), fav
 
     def gen_partition(self, rng, tier):
         """clusters whose network is cut for a while: nobody has to crash for views to diverge.
@@ -882,13 +939,13 @@ class C13(core.Property):
                 for _ in range(rng.choice([1, 1, 2, 3])):
                     ups.append([rng.randrange(n), rng.choice("sdaaa"), rng.choice([0, 0, 1, 1, 2, 3])])
                 inject.append([rng.randint(1, horizon), src, dst, ups])
-        if inject:
-            return {"family": "cluster", "n": n, "iv": ivu, "susp": susp, "thr": thr, "indirect": rng.choice(self.INDIRECT),
-                    "rounds": rounds, "seed": rng.getrandbits(32), "dmax": dmax, "dmode": dmode,
-                    "crashes": crashes, "offs": offs, "inject": inject}
-        return {"family": "cluster", "n": n, "iv": ivu, "susp": susp, "thr": thr, "indirect": rng.choice(self.INDIRECT),
+        case = {"family": "cluster", "n": n, "iv": ivu, "susp": susp, "thr": thr, "indirect": rng.choice(self.INDIRECT),
                 "rounds": rounds, "seed": rng.getrandbits(32), "dmax": dmax, "dmode": dmode,
                 "crashes": crashes, "offs": offs}
+        if inject:
+            case["inject"] = inject
+        self.shuffle_policy(rng, case, victims, 0.3)
+        return case
 
     def gen_phi(self, rng, tier):
         thr = rng.choice([1.0, 2.0, 4.0, 8.0, 8.0, 12.0, 16.0, 0.5, 3.3])
@@ -925,6 +982,61 @@ class C13(core.Property):
         case = {"family": "phi", "thr": thr, "init": init, "maxn": maxn, "ops": ops}
         if tier == "thorough":
             case["refine_budget"] = 2600   # (adaptive samples per case; the default of the quick tier is 5200)
+        return case
+
+    MIN_STD_NS = 100_000_000   # PhiAccrualDetector's default min_std = 0.1 s (the harness never overrides it)
+
+    def gen_phi_boundary(self, rng, tier):
+        """heartbeat histories at the edges of the detector's input space, each followed by a silence
+        that is sampled from the last heartbeat to well beyond `Spec.silenceBound`: a last heartbeat at
+        the simulation epoch (timestamp 0: a single heartbeat at 0, repeated heartbeats at 0, a
+        history that returns to 0 out of order), a single heartbeat (with and without a bootstrap
+        interval: without one there is no data and phi stays 0), repeated timestamps (intervals of 0
+        are not recorded), out-of-order timestamps (negative intervals are not recorded, the last
+        heartbeat moves back), tiny and large bootstrap intervals, a window of one."""
+        thr = rng.choice([1.0, 2.0, 4.0, 8.0, 8.0, 12.0, 16.0, 0.5, 3.3, 100.0, 300.0])
+        init = rng.choice([None, None, 1, 8, 64, 512, 512, 2048])
+        maxn = rng.choice([200, 200, 1, 2, 3])
+        g = rng.choice([1, 16, 64, 512, 1024])
+        t0 = rng.choice([0, 0, 0, 0, 1, g, 5000])
+        shape = rng.choice(["single", "single", "repeat", "repeat", "regular", "return", "return", "backwards", "mixed"])
+        if shape == "single":
+            hs = [t0]
+        elif shape == "repeat":
+            hs = [t0] * rng.choice([2, 3, 5])
+        elif shape == "regular":
+            hs = [t0 + j * g for j in range(rng.choice([2, 3, 6]))]
+        elif shape == "return":     # regular heartbeats, then one that carries the first timestamp again
+            hs = [t0 + j * g for j in range(rng.choice([2, 3, 5]))] + [t0] * rng.choice([1, 2])
+        elif shape == "backwards":  # strictly decreasing timestamps down to t0
+            hs = [t0 + j * g for j in range(rng.choice([2, 4]), -1, -1)]
+        else:
+            hs = [t0 + rng.choice([0, 0, g, 2 * g, 3 * g]) for _ in range(rng.choice([3, 5, 8]))]
+        ops = []
+        last = None
+        m = init or 0           # bound on every interval ever recorded, in grid units
+        for j, t in enumerate(hs):
+            ops.append(["h", t])
+            if last is not None and t > last:
+                m = max(m, t - last)
+            last = t
+            if j < len(hs) - 1 and rng.random() < 0.3:
+                continue
+            # the silence after this heartbeat (the next heartbeat, if any, may lie inside it in time:
+            # samples are issued in time order per silence, heartbeats are not bound to it)
+            final = j == len(hs) - 1
+            bound = m * U + 39 * max(m * U, self.MIN_STD_NS)
+            marks = [0, 1, m * U // 2, m * U, m * U + 1, 2 * m * U, m * U + 3 * self.MIN_STD_NS, bound // 2,
+                     bound - U, bound - 1, bound, bound + 1, bound + U, 2 * bound, 10 * bound + 7]
+            if not final:
+                marks = [x for x in marks if rng.random() < 0.3]
+            seg = sorted({last * U + x for x in marks if x >= 0})
+            ops += [["q", ns // U, ns % U] for ns in seg]
+        case = {"family": "phi", "thr": thr, "init": init, "maxn": maxn, "ops": ops}
+        if rng.random() < 0.5:
+            case["refine"] = 0
+        elif tier == "thorough":
+            case["refine_budget"] = 2600
         return case
 
     def tail_samples(self, rng, last, window, thr, mode):
@@ -1031,7 +1143,9 @@ class C13(core.Property):
         if impl_out and impl_out[0].startswith("IMPL-"):
             return None
         if case["family"] == "phi":
-            return (f"judge-phi {fbits(case['thr'])}", list(impl_out))
+            init = case.get("init")
+            return (f"judge-phi {fbits(case['thr'])} {init * U if init else 0} {self.MIN_STD_NS} {case.get('maxn', 200)}",
+                    list(impl_out))
         ivu = case["iv"]
         return (f"judge-cluster {case['n']} {ivu * U} {ivu // 2 * U} {case['susp'] * U}", list(impl_out))
 
@@ -1111,7 +1225,7 @@ class C13(core.Property):
     def mutate(self, case, rng):
         c = json.loads(json.dumps(case))
         if c["family"] == "phi":
-            return self.gen_phi(rng, "quick")
+            return self.gen_phi(rng, "quick") if rng.random() < 0.6 else self.gen_phi_boundary(rng, "quick")
         k = rng.random()
         if c.get("parts") and k < 0.5:
             pt = rng.choice(c["parts"])
@@ -1154,6 +1268,8 @@ THEOREMS = [
     "HappyModel.C13.heal_only_unblocks",
     "HappyModel.C13.phi_inf_absorbing",
     "HappyModel.C13.phi_monotone",
+    "HappyModel.C13.phi_reaches_level",
+    "HappyModel.C13.phi_silence_detected",
     "HappyModel.C13.failure_detected_partial",
     "HappyModel.C13.failure_detected_by_phi_partial",
     "HappyModel.C13.crash_yields_quiet_run",
